@@ -903,7 +903,7 @@ class LinearOperator(object):
         evals, evecs = torch.linalg.eigh(self.to_dense().to(dtype=settings._linalg_dtype_symeig.value()))
         # chop any negative eigenvalues.
         # TODO: warn if evals are significantly negative
-        evals = evals.clamp_min(0.0).to(dtype=dtype)
+        evals = torch.where(evals < 0, torch.zeros_like(evals), evals).to(dtype=dtype)
         if eigenvectors:
             evecs = DenseLinearOperator(evecs.to(dtype=dtype))
         else:
